@@ -74,6 +74,8 @@ def gen_item(rnd):
         return "ip|cidr", rnd.choice(["10.0.0.0/7", "10.1.0.0/16", "192.168.1.1/32", "10.64.0.0/10", ["10.0.0.0/8", "172.16.0.0/15"], "0.0.0.0/0"])
     if r < 0.75:
         return f + "|" + rnd.choice(["gt", "gte", "lt", "lte"]), rnd.choice([5, 0, 7.5, [1, 9]])
+    if r < 0.77:
+        return f + "|" + rnd.choice(["hour", "minute", "day", "week", "month", "year"]), rnd.choice([3, 0, [1, 2], [0, 1, 2]])
     if r < 0.79:
         return f + "|exists", rnd.choice([True, False])
     if r < 0.83:
